@@ -223,6 +223,10 @@ def _resolve_identifier(
             if index + 1 < total_scopes
             else ()
         )
+        if identifier.name in scope.parameters:
+            raise ResolutionError(
+                f"{identifier.name} is a function parameter without a known value"
+            )
         try:
             binding = scope.get_binding(identifier.name)
             return _resolve_binding(binding, scope_chain)
